@@ -573,5 +573,14 @@ pub fn run(ctx: &Ctx) -> Evidence {
         }
     }
     ev.merge(collected.into_inner().unwrap());
+    // generator health: the programs are built to terminate in STOP; if many of them do not on this
+    // tree the check would pass vacuously — report that as inconclusive instead
+    let used = ev.classes.get("programs").copied().unwrap_or(0);
+    let discarded = ev.classes.get("programs:discarded(too long / not terminating)").copied().unwrap_or(0);
+    if ev.violations.is_empty() && discarded * 10 > used + discarded {
+        println!("INCONCLUSIVE property=C04 {} of {} generated programs do not run to STOP uninterrupted on this tree: nothing meaningful was explored", discarded, used + discarded);
+        let code = finish(ctx, ev);
+        std::process::exit(if code == 1 { 1 } else { 2 });
+    }
     ev
 }
